@@ -445,8 +445,24 @@ class vCategory:
     @staticmethod
     def from_ical(ical):
         ical = to_unicode(ical)
-        out = unescape_char(ical).split(',')
-        return out
+        # split on the commas that are not escaped, then decode each item
+        items = []
+        item = []
+        index = 0
+        while index < len(ical):
+            char = ical[index]
+            if char == '\\' and index + 1 < len(ical):
+                item.append(ical[index:index + 2])
+                index += 2
+                continue
+            if char == ',':
+                items.append(''.join(item))
+                item = []
+            else:
+                item.append(char)
+            index += 1
+        items.append(''.join(item))
+        return [unescape_char(item) for item in items]
 
     def __eq__(self, other):
         """self == other"""
